@@ -223,4 +223,65 @@ mod test {
             .expect("local must be found");
         assert_eq!(u32::from(decl.get_position()), 9);
     }
+
+    #[test]
+    fn test_for_header_closure_does_not_see_loop_variables_while_the_tree_is_built() {
+        let mut ws = VirtualWorkspace::new();
+        let file_id = ws.def("for v = (function() return v end)(), 2 do print(v) end\n");
+        let db = ws.analysis.compilation.get_db();
+        let range = |start: u32| rowan::TextRange::at(start.into(), 1.into());
+        // the `v` returned by the closure (offset 27) is not the loop variable (offset 4), the `v` in the body (offset 48) is
+        let refs = db.get_reference_index();
+        assert_eq!(refs.get_var_reference_decl(&file_id, range(27)), None);
+        let in_body = refs
+            .get_var_reference_decl(&file_id, range(48))
+            .expect("reference must be recorded");
+        assert_eq!(u32::from(in_body.position), 4);
+        let tree = db
+            .get_decl_index()
+            .get_decl_tree(&file_id)
+            .expect("decl tree must exist");
+        assert!(tree.find_local_decl("v", 27.into()).is_none());
+    }
+
+    #[test]
+    fn test_for_header_closure_with_empty_loop_body() {
+        let mut ws = VirtualWorkspace::new();
+        let file_id = ws.def("for i, b in function(x) return b.a, 0 end do end\n");
+        let db = ws.analysis.compilation.get_db();
+        // the `b` in the closure (offset 31) is not the loop variable (offset 7)
+        let use_range = rowan::TextRange::at(31.into(), 1.into());
+        assert_eq!(
+            db.get_reference_index()
+                .get_var_reference_decl(&file_id, use_range),
+            None
+        );
+        let tree = db
+            .get_decl_index()
+            .get_decl_tree(&file_id)
+            .expect("decl tree must exist");
+        assert!(tree.find_local_decl("b", 31.into()).is_none());
+    }
+
+    #[test]
+    fn test_empty_repeat_condition_does_not_see_closure_parameters() {
+        let mut ws = VirtualWorkspace::new();
+        let file_id = ws.def("local b = 1\nrepeat until f(function(b) end, b)\n");
+        let db = ws.analysis.compilation.get_db();
+        // the last `b` (offset 44) is the local (offset 6), not the parameter of the closure (offset 36)
+        let use_range = rowan::TextRange::at(44.into(), 1.into());
+        let decl_id = db
+            .get_reference_index()
+            .get_var_reference_decl(&file_id, use_range)
+            .expect("reference must be recorded");
+        assert_eq!(u32::from(decl_id.position), 6);
+        let tree = db
+            .get_decl_index()
+            .get_decl_tree(&file_id)
+            .expect("decl tree must exist");
+        let decl = tree
+            .find_local_decl("b", 44.into())
+            .expect("local must be found");
+        assert_eq!(u32::from(decl.get_position()), 6);
+    }
 }
